@@ -22,7 +22,21 @@ func specCountT(args []string, i int) int {
 	return specCountT(args, i-2)
 }
 
+// specLastOf: the value that follows the last occurrence of a switch (short or long spelling) at
+// the odd positions below i ("" if there is none): what an option holds after the arguments below i
+// have been read, whatever the order of the switches.
+func specLastOf(args []string, i int, short string, long string) string {
+	if i <= 1 {
+		return ""
+	}
+	if args[i-2] == short || args[i-2] == long {
+		return args[i-1]
+	}
+	return specLastOf(args, i-2, short, long)
+}
+
 //@ func parseOptions
+//@   loop @"for i < (len(args) - 1)" invariant[C19] input-and-output-are-what-their-own-switches-say-in-any-order: options.in == specLastOf(args, i, "-i", "--in") && options.out == specLastOf(args, i, "-o", "--out")
 //@   flag modular: true
 //@   ensures[C19] complete-or-no-return: len(result.in) > 0 && len(result.out) > 0 && len(result.converters) > 0
 //@   loop @"for i < (len(args) - 1)" invariant[C14,C19] one-factory-call-per-requested-target: calls(dyncall) == len(options.converters)
@@ -30,11 +44,21 @@ func specCountT(args []string, i int) int {
 //@   loop @"for i < (len(args) - 1)" invariant[C19] one-converter-per-type-switch: len(options.converters) == specCountT(args, i)
 //@   ensures[C14,C19] every-requested-target-gets-its-own-converter: calls(dyncall) == len(result.converters)
 //
+// sameFile asks the operating system: true only if both paths could be examined and os.SameFile
+// says that the two results describe one file.
+//@ func sameFile
+//@   flag modular: true
+//@   ensures[C19] true-only-when-the-system-says-both-paths-name-one-file: result ==> calls(os_Stat) == 2 && arg(os_Stat, 0, 0) == path && arg(os_Stat, 1, 0) == otherPath && res(os_Stat, 0, 1) == nil && res(os_Stat, 1, 1) == nil && calls(os_SameFile) == 1 && res(os_SameFile, 0, 0)
+//@   ensures[C19] the-systems-answer-is-passed-on: calls(os_SameFile) == 1 ==> result == res(os_SameFile, 0, 0)
+//@   ensures[C19] asked-whenever-both-paths-can-be-examined: calls(os_Stat) >= 1 && arg(os_Stat, 0, 0) == path && (res(os_Stat, 0, 1) == nil ==> calls(os_Stat) == 2 && arg(os_Stat, 1, 0) == otherPath && (res(os_Stat, 1, 1) == nil ==> calls(os_SameFile) == 1))
+//
 //@ func main
+//@   loop @"range options.converters" invariant[C19] the-input-is-never-the-file-that-is-written: calls(sameFile) == rangeindex + 1 && forall(k, 0, rangeindex + 1, arg(sameFile, k, 0) == res(parseOptions, 0, 0).in && arg(sameFile, k, 1) == arg(os_WriteFile, k, 0) && !res(sameFile, k, 0) && seq(sameFile, k) < seq(os_WriteFile, k))
+//@   ensures[C19] the-input-is-never-the-file-that-is-written: calls(sameFile) == calls(os_WriteFile) && forall(k, 0, calls(os_WriteFile), arg(sameFile, k, 0) == res(parseOptions, 0, 0).in && arg(sameFile, k, 1) == arg(os_WriteFile, k, 0) && !res(sameFile, k, 0) && seq(sameFile, k) < seq(os_WriteFile, k))
 //@   loop @"range options.converters" invariant[C19] one-transpile-one-write-per-target: calls(Transpile) == rangeindex + 1 && calls(os_WriteFile) == rangeindex + 1 && calls(path_filepath_Join) == rangeindex + 1 && calls(path_filepath_Base) == rangeindex + 1 && calls(path_filepath_Ext) == rangeindex + 1 && calls(Extension) == rangeindex + 1 && calls(parseOptions) == 1
 //@   loop @"range options.converters" invariant[C19] nothing-written-for-a-failed-target: forall(k, 0, rangeindex + 1, res(Transpile, k, 1) == nil && seq(Transpile, k) < seq(os_WriteFile, k) && res(os_WriteFile, k, 0) == nil)
-//@   loop @"range options.converters" invariant[C19] bytes-are-the-library-result: forall(k, 0, rangeindex + 1, arg(os_WriteFile, k, 1) == bytesOf(res(Transpile, k, 0)) && arg(Transpile, k, 1) == res(parseOptions, 0, 0).in)
+//@   loop @"range options.converters" invariant[C19,C08] bytes-are-the-library-result: forall(k, 0, rangeindex + 1, arg(os_WriteFile, k, 1) == bytesOf(res(Transpile, k, 0)) && arg(Transpile, k, 1) == res(parseOptions, 0, 0).in)
 //@   loop @"range options.converters" invariant[C19] file-name-is-input-without-last-extension-plus-target-extension: forall(k, 0, rangeindex + 1, arg(os_WriteFile, k, 0) == res(path_filepath_Join, k, 0) && len(arg(path_filepath_Join, k, 0)) == 2 && arg(path_filepath_Join, k, 0)[0] == res(parseOptions, 0, 0).out && arg(path_filepath_Base, k, 0) == res(parseOptions, 0, 0).in && arg(path_filepath_Ext, k, 0) == res(parseOptions, 0, 0).in && arg(path_filepath_Join, k, 0)[1] == res(path_filepath_Base, k, 0)[0:len(res(path_filepath_Base, k, 0)) - len(res(path_filepath_Ext, k, 0))] + "." + res(Extension, k, 0))
 //@   ensures[C19,C14] one-file-per-requested-target: calls(os_WriteFile) == len(res(parseOptions, 0, 0).converters) && calls(Transpile) == len(res(parseOptions, 0, 0).converters)
 //@   ensures[C19] every-write-succeeded-and-follows-a-successful-transpile: forall(k, 0, calls(os_WriteFile), res(Transpile, k, 1) == nil && res(os_WriteFile, k, 0) == nil && seq(Transpile, k) < seq(os_WriteFile, k))
-//@   ensures[C19,C14] bytes-and-name: forall(k, 0, calls(os_WriteFile), arg(os_WriteFile, k, 1) == bytesOf(res(Transpile, k, 0)) && arg(os_WriteFile, k, 0) == res(path_filepath_Join, k, 0) && arg(path_filepath_Join, k, 0)[1] == res(path_filepath_Base, k, 0)[0:len(res(path_filepath_Base, k, 0)) - len(res(path_filepath_Ext, k, 0))] + "." + res(Extension, k, 0))
+//@   ensures[C19,C14,C08] bytes-and-name: forall(k, 0, calls(os_WriteFile), arg(os_WriteFile, k, 1) == bytesOf(res(Transpile, k, 0)) && arg(os_WriteFile, k, 0) == res(path_filepath_Join, k, 0) && arg(path_filepath_Join, k, 0)[1] == res(path_filepath_Base, k, 0)[0:len(res(path_filepath_Base, k, 0)) - len(res(path_filepath_Ext, k, 0))] + "." + res(Extension, k, 0))
